@@ -242,7 +242,7 @@ def _engine_for(sx, mol, sizes):
 @condition("C07.bounds",
            anchors=["polyply.src.restraints:set_distance_restraint", "polyply.src.restraints:set_restraints",
                     "polyply.src.graph_utils:compute_avg_step_length", "polyply.src.graph_utils:get_all_predecessors"],
-           replay=False, must_cover=["forward", "reversed", "two restraints same reference"],
+           replay=False, must_cover=["forward", "reversed", "two restraints same reference", "two molecule types"],
            outside=["bounds of intermediate path nodes (only the restrained pair is part of the statement)", "branched molecules (rejected by the code)"],
            bounds={"quick": dict(nmax=5), "thorough": dict(nmax=8)},
            budget={"quick": 200, "thorough": 1200})
@@ -269,7 +269,24 @@ def bounds(sx, B):
         sx.assume(c != a and c != b)
         decl[(a, c)] = (sx.real("dist2", 0, None), sx.real("tol2", 0, None))
         sx.cover("two restraints same reference")
-    top.distance_restraints[("M", 0)] = decl
+    other = sx.sel("other_molecule_first", [False, True])
+    if other:
+        # a molecule of another type with larger residues, restrained as well and listed first in the build file
+        big = meta_from_shape((3, [(0, 1), (1, 2)]), mol_name="BIG", resnames=["L", "L", "L"])
+        top.molecules.insert(0, big)
+        top.mol_idx_by_name["BIG"] = [0]
+        top.mol_idx_by_name["M"] = [1]
+        sL = sx.real("sizeL", 0, None, lo_strict=True)
+        eng.interaction_matrix[frozenset(["L"])] = (sL, 1.0)
+        n_big = 3
+        eng.nodes_to_gndx = {(1, k): i for i, k in enumerate(mol.nodes)}
+        eng.nodes_to_gndx.update({(0, k): len(mol.nodes) + i for i, k in enumerate(big.nodes)})
+        eng.atypes = np.array(list(eng.atypes) + ["L"] * n_big)
+        top.distance_restraints[("BIG", 0)] = {(0, 2): (sx.real("distL", 0, None), 0.0)}
+        top.distance_restraints[("M", 1)] = decl
+        sx.cover("two molecule types")
+    else:
+        top.distance_restraints[("M", 0)] = decl
     sx.cover("forward" if a < b else "reversed")
     restraints.set_restraints(top, eng)
     path = list(mol.search_tree.edges)
@@ -289,7 +306,7 @@ def bounds(sx, B):
 @condition("C07.cycles",
            anchors=["polyply.src.gen_coords:_initialize_cylces", "polyply.src.meta_molecule:MetaMolecule.search_tree",
                     "polyply.src.restraints:set_restraints"],
-           rejects=(), selector_only=True, replay=True, must_cover=["ring", "two cycles rejected"],
+           rejects=(), selector_only=True, replay=True, must_cover=["ring", "two cycles rejected", "with build-file restraint"],
            outside=["rings larger than the bound", "molecules with rings plus tails (the statement speaks of ring-shaped molecules)"],
            bounds={"quick": dict(nmax=7), "thorough": dict(nmax=12)},
            budget={"quick": 200, "thorough": 1200})
@@ -326,15 +343,28 @@ def cycles(sx, B):
             return
         sx.claim(False, "a molecule with more than one cycle is rejected")
         return
+    pre = sx.sel("build_file_restraint", [False, True])
+    if pre:
+        # as the build file parser stores it before the cycles are initialised
+        top.distance_restraints[("ring", 0)][(key(0), key(n // 2))] = (0.8, 0.1)
+        sx.cover("with build-file restraint")
     gen_coords._initialize_cylces(top, ["ring"], tol)
     sx.cover("ring")
-    decl = top.distance_restraints[("ring", 0)]
-    sx.claim(len(decl) == 1, "one restraint per ring")
+    decl = dict(top.distance_restraints[("ring", 0)])
+    if pre:
+        sx.claim(decl.get((key(0), key(n // 2))) == (0.8, 0.1), "a distance restraint declared in the build file is kept when the ring is declared cyclic",
+                 lambda: repr(decl))
+        decl.pop((key(0), key(n // 2)), None)
+    sx.claim(len(decl) == 1, "one closing restraint per ring")
+    if len(decl) != 1:
+        return
     (u, v), (d, t) = list(decl.items())[0]
     sx.claim(mol.has_edge(u, v), "the restrained pair is joined by an edge of the ring (the closing edge)",
              lambda: "ring of %d (keys %s, inserted %r): restraint between %r and %r" % (n, keyf, order, u, v))
     sx.claim(d == 0.0 and t == tol, "distance 0 and the given tolerance")
     eng = _engine_for(sx, mol, {"A": 0.5})
+    if pre:
+        top.distance_restraints[("ring", 0)].pop((key(0), key(n // 2)), None)
     restraints.set_restraints(top, eng)
     tree_order = [list(mol.search_tree.edges)[0][0]] + [e[1] for e in mol.search_tree.edges]
     later, other = (v, u) if tree_order.index(v) > tree_order.index(u) else (u, v)
